@@ -293,4 +293,217 @@ Proof.
   apply (entry_sum_dsum sa sb (fun a b => g a b (cnth sa ia) (cnth sb ib))).
 Qed.
 
+
+(* ------------------------------------------------------------------ *)
+(* the five laws for kernel blocks (any primitive kernel g)             *)
+(* ------------------------------------------------------------------ *)
+Lemma nseg_pos_coeffs (s : shell F) m : m < nseg s -> s_coeffs s <> [].
+Proof. unfold nseg. destruct (s_coeffs s); cbn; [lia|discriminate]. Qed.
+
+Lemma nseg_col_shell s m : m < nseg s -> nseg (col_shell s m) = 1%nat.
+Proof.
+  intros H. apply nseg_pos_coeffs in H. unfold nseg, col_shell, set_coeffs, col_rows. cbn [s_coeffs].
+  destruct (s_coeffs s); [congruence|reflexivity].
+Qed.
+
+Lemma kentry_col g sa sb ma ia mb ib :
+  kentry g (col_shell sa ma) (col_shell sb mb) 0 ia 0 ib = kentry g sa sb ma ia mb ib.
+Proof.
+  unfold kentry, dsum. change (prims (col_shell sb mb)) with (combine (s_exps sb) (col_rows mb 0 (s_coeffs sb))).
+  rewrite ssum_col. apply ssum_ext. intros beta. f_equal.
+  change (prims (col_shell sa ma)) with (combine (s_exps sa) (col_rows ma 0 (s_coeffs sa))).
+  apply ssum_col.
+Qed.
+
+Lemma kentry_col_a g sa sb ma ia mb ib :
+  kentry g (col_shell sa ma) sb 0 ia mb ib = kentry g sa sb ma ia mb ib.
+Proof.
+  unfold kentry, dsum. apply ssum_ext. intros beta. f_equal.
+  change (prims (col_shell sa ma)) with (combine (s_exps sa) (col_rows ma 0 (s_coeffs sa))).
+  apply ssum_col.
+Qed.
+
+Lemma kentry_col_b g sa sb ma ia mb ib :
+  kentry g sa (col_shell sb mb) ma ia 0 ib = kentry g sa sb ma ia mb ib.
+Proof.
+  unfold kentry, dsum. change (prims (col_shell sb mb)) with (combine (s_exps sb) (col_rows mb 0 (s_coeffs sb))).
+  apply ssum_col.
+Qed.
+
+(* 1. generalized = segmented, block level: the block of the two single-column shells is the
+      (ma, mb) slice of the block of the generalized shells *)
+Theorem kblock_segmented g sa sb ma mb : ma < nseg sa -> mb < nseg sb ->
+  kblock g (col_shell sa ma) (col_shell sb mb)
+  = mk4 1 (ncomp sa) 1 (ncomp sb) (fun _ ia _ ib => nth4' ma ia mb ib (kblock g sa sb)).
+Proof.
+  intros Hma Hmb. rewrite !kblock_form. rewrite (nseg_col_shell sa ma Hma), (nseg_col_shell sb mb Hmb).
+  change (ncomp (col_shell sa ma)) with (ncomp sa). change (ncomp (col_shell sb mb)) with (ncomp sb).
+  apply mk4_ext. intros a ia b ib Ha Hia Hb Hib.
+  assert (a = 0%nat) by lia. assert (b = 0%nat) by lia. subst a b.
+  rewrite nth4_mk4 by assumption. apply kentry_col.
+Qed.
+
+Theorem kblock_segmented_entry g sa sb ma ia mb ib :
+  ma < nseg sa -> ia < ncomp sa -> mb < nseg sb -> ib < ncomp sb ->
+  nth4' ma ia mb ib (kblock g sa sb) = nth4' 0 ia 0 ib (kblock g (col_shell sa ma) (col_shell sb mb)).
+Proof.
+  intros Hma Hia Hmb Hib. rewrite (kblock_segmented g sa sb ma mb Hma Hmb).
+  now rewrite nth4_mk4 by (assumption || lia).
+Qed.
+
+(* 2. order of the primitives *)
+Lemma kentry_perm g sa sb psa psb ma ia mb ib :
+  Permutation (prims sa) psa -> Permutation (prims sb) psb ->
+  kentry g (set_prims sa psa) (set_prims sb psb) ma ia mb ib = kentry g sa sb ma ia mb ib.
+Proof.
+  intros Ha Hb. unfold kentry, dsum. rewrite !prims_set_prims.
+  rewrite <- (ssum_perm _ _ _ mb Hb). apply ssum_ext. intros beta. f_equal.
+  symmetry. apply (ssum_perm _ _ _ ma Ha).
+Qed.
+
+Theorem kblock_perm g sa sb psa psb :
+  Permutation (prims sa) psa -> Permutation (prims sb) psb ->
+  nseg (set_prims sa psa) = nseg sa -> nseg (set_prims sb psb) = nseg sb ->
+  kblock g (set_prims sa psa) (set_prims sb psb) = kblock g sa sb.
+Proof.
+  intros Ha Hb Na Nb. rewrite !kblock_form, Na, Nb.
+  change (ncomp (set_prims sa psa)) with (ncomp sa). change (ncomp (set_prims sb psb)) with (ncomp sb).
+  apply mk4_ext. intros. now apply kentry_perm.
+Qed.
+
+(* rows of equal length: a permutation of the primitives keeps the number of columns *)
+Definition rect_rows (M : nat) (C : list (list F)) : Prop := Forall (fun r => length r = M) C.
+
+Lemma nseg_perm s ps M : rect_rows M (s_coeffs s) -> wf_shell s -> s_coeffs s <> [] ->
+  Permutation (prims s) ps -> nseg (set_prims s ps) = nseg s.
+Proof.
+  intros HR Hwf Hne HP. unfold nseg, set_prims. cbn [s_coeffs].
+  assert (HM : forall q, In q (prims s) -> length (snd q) = M).
+  { intros [a r] Hin. apply in_combine_r in Hin. unfold rect_rows in HR. rewrite Forall_forall in HR. now apply HR. }
+  assert (E1 : length (hd [] (s_coeffs s)) = M).
+  { destruct (s_coeffs s) as [|r C]; [congruence|]. inversion HR; subst. reflexivity. }
+  rewrite E1. destruct ps as [|q ps].
+  - apply Permutation_sym, Permutation_nil in HP. unfold prims, wf_shell in *.
+    destruct (s_exps s), (s_coeffs s); cbn in *; try congruence; try lia; try discriminate.
+  - cbn [map hd]. apply HM. apply (Permutation_in _ (Permutation_sym HP)). now left.
+Qed.
+
+(* 3. splitting a primitive *)
+Lemma kentry_split_a g sa sb l1 l2 a r r1 r2 ma ia mb ib :
+  prims sa = l1 ++ (a, r) :: l2 -> r = map2 (fadd K) r1 r2 -> length r1 = length r2 ->
+  kentry g (set_prims sa (l1 ++ (a, r1) :: (a, r2) :: l2)) sb ma ia mb ib = kentry g sa sb ma ia mb ib.
+Proof.
+  intros Hp Hr Hl. unfold kentry, dsum. rewrite prims_set_prims. apply ssum_ext. intros beta. f_equal.
+  rewrite Hp. apply ssum_split. subst r. now apply nth_map2_add.
+Qed.
+
+Lemma kentry_split_b g sa sb l1 l2 a r r1 r2 ma ia mb ib :
+  prims sb = l1 ++ (a, r) :: l2 -> r = map2 (fadd K) r1 r2 -> length r1 = length r2 ->
+  kentry g sa (set_prims sb (l1 ++ (a, r1) :: (a, r2) :: l2)) ma ia mb ib = kentry g sa sb ma ia mb ib.
+Proof.
+  intros Hp Hr Hl. unfold kentry, dsum. rewrite prims_set_prims. rewrite Hp.
+  apply ssum_split. subst r. now apply nth_map2_add.
+Qed.
+
+Lemma hd_coeffs_of_prims (s : shell F) q l : prims s = q :: l -> hd [] (s_coeffs s) = snd q.
+Proof. unfold prims. destruct (s_exps s), (s_coeffs s); cbn; try discriminate. intros H. now inversion H. Qed.
+
+Lemma nseg_split s l1 l2 a r r1 r2 :
+  prims s = l1 ++ (a, r) :: l2 -> r = map2 (fadd K) r1 r2 -> length r1 = length r2 ->
+  nseg (set_prims s (l1 ++ (a, r1) :: (a, r2) :: l2)) = nseg s.
+Proof.
+  intros Hp Hr Hl. unfold nseg at 2. unfold nseg, set_prims. cbn [s_coeffs].
+  destruct l1 as [|q l1]; cbn [app] in *.
+  - rewrite (hd_coeffs_of_prims s _ _ Hp). cbn [map hd snd]. subst r. now rewrite map2_length.
+  - rewrite (hd_coeffs_of_prims s _ _ Hp). reflexivity.
+Qed.
+
+Theorem kblock_split_a g sa sb l1 l2 a r r1 r2 :
+  prims sa = l1 ++ (a, r) :: l2 -> r = map2 (fadd K) r1 r2 -> length r1 = length r2 ->
+  kblock g (set_prims sa (l1 ++ (a, r1) :: (a, r2) :: l2)) sb = kblock g sa sb.
+Proof.
+  intros Hp Hr Hl. rewrite !kblock_form, (nseg_split sa l1 l2 a r r1 r2 Hp Hr Hl).
+  change (ncomp (set_prims sa (l1 ++ (a, r1) :: (a, r2) :: l2))) with (ncomp sa).
+  apply mk4_ext. intros. now apply (kentry_split_a g sa sb l1 l2 a r r1 r2).
+Qed.
+
+Theorem kblock_split_b g sa sb l1 l2 a r r1 r2 :
+  prims sb = l1 ++ (a, r) :: l2 -> r = map2 (fadd K) r1 r2 -> length r1 = length r2 ->
+  kblock g sa (set_prims sb (l1 ++ (a, r1) :: (a, r2) :: l2)) = kblock g sa sb.
+Proof.
+  intros Hp Hr Hl. rewrite !kblock_form, (nseg_split sb l1 l2 a r r1 r2 Hp Hr Hl).
+  change (ncomp (set_prims sb (l1 ++ (a, r1) :: (a, r2) :: l2))) with (ncomp sb).
+  apply mk4_ext. intros. now apply (kentry_split_b g sa sb l1 l2 a r r1 r2).
+Qed.
+
+(* 4. un-normalised linearity in the coefficient matrix of either shell *)
+Lemma kentry_add_a g sa sb C1 C2 ma ia mb ib : same_shape C1 C2 ->
+  kentry g (set_coeffs sa (rows_add C1 C2)) sb ma ia mb ib
+  = kentry g (set_coeffs sa C1) sb ma ia mb ib + kentry g (set_coeffs sa C2) sb ma ia mb ib.
+Proof.
+  intros H. unfold kentry, dsum. rewrite !prims_set_coeffs.
+  change (s_l (set_coeffs sa ?C)) with (s_l sa). change (cnth (set_coeffs sa ?C) ia) with (cnth sa ia).
+  change (s_exps (set_coeffs sa ?C)) with (s_exps sa).
+  unfold ssum at 1 3 5. rewrite <- fsum_map_add. apply fsum_map_ext. intros [beta rb]. cbn [fst snd].
+  rewrite (ssum_add _ _ _ _ _ H). ring.
+Qed.
+
+Lemma kentry_scale_a g sa sb k C ma ia mb ib :
+  kentry g (set_coeffs sa (rows_scale k C)) sb ma ia mb ib = k * kentry g (set_coeffs sa C) sb ma ia mb ib.
+Proof.
+  unfold kentry, dsum. rewrite !prims_set_coeffs.
+  change (s_l (set_coeffs sa ?C)) with (s_l sa). change (cnth (set_coeffs sa ?C) ia) with (cnth sa ia).
+  change (s_exps (set_coeffs sa ?C)) with (s_exps sa).
+  unfold ssum at 1 3. rewrite <- fsum_map_scale. apply fsum_map_ext. intros [beta rb]. cbn [fst snd].
+  rewrite ssum_scale. ring.
+Qed.
+
+Lemma kentry_add_b g sa sb C1 C2 ma ia mb ib : same_shape C1 C2 ->
+  kentry g sa (set_coeffs sb (rows_add C1 C2)) ma ia mb ib
+  = kentry g sa (set_coeffs sb C1) ma ia mb ib + kentry g sa (set_coeffs sb C2) ma ia mb ib.
+Proof.
+  intros H. unfold kentry, dsum. rewrite !prims_set_coeffs.
+  change (s_l (set_coeffs sb ?C)) with (s_l sb). change (cnth (set_coeffs sb ?C) ib) with (cnth sb ib).
+  change (s_exps (set_coeffs sb ?C)) with (s_exps sb).
+  now apply ssum_add.
+Qed.
+
+Lemma kentry_scale_b g sa sb k C ma ia mb ib :
+  kentry g sa (set_coeffs sb (rows_scale k C)) ma ia mb ib = k * kentry g sa (set_coeffs sb C) ma ia mb ib.
+Proof.
+  unfold kentry, dsum. rewrite !prims_set_coeffs.
+  change (s_l (set_coeffs sb ?C)) with (s_l sb). change (cnth (set_coeffs sb ?C) ib) with (cnth sb ib).
+  change (s_exps (set_coeffs sb ?C)) with (s_exps sb).
+  apply ssum_scale.
+Qed.
+
+(* 5a. one column of each shell scaled: the un-normalised entry picks up the factors *)
+Definition scale_col (s : shell F) (m0 : nat) (k : F) : shell F :=
+  set_coeffs s (scale_col_rows m0 k (s_coeffs s)).
+
+Lemma kentry_scale_col g sa sb m0a ka m0b kb ma ia mb ib :
+  kentry g (scale_col sa m0a ka) (scale_col sb m0b kb) ma ia mb ib
+  = colfac m0a ka ma * colfac m0b kb mb * kentry g sa sb ma ia mb ib.
+Proof.
+  unfold kentry, dsum, scale_col. rewrite !prims_set_coeffs.
+  change (s_l (set_coeffs ?s ?C)) with (s_l s). change (cnth (set_coeffs ?s ?C) ?i) with (cnth s i).
+  change (s_exps (set_coeffs ?s ?C)) with (s_exps s).
+  rewrite ssum_scale_col. fold (prims sb).
+  transitivity (colfac m0b kb mb * ssum (fun beta => colfac m0a ka ma *
+     (ssum (fun alpha => g alpha beta (cnth sa ia) (cnth sb ib) * norm_prim K (s_l sa) (cnth sa ia) alpha) (prims sa) ma
+      * norm_prim K (s_l sb) (cnth sb ib) beta)) (prims sb) mb).
+  - f_equal. apply ssum_ext. intros beta. rewrite ssum_scale_col. fold (prims sa). ring.
+  - unfold ssum at 1 3.
+    rewrite (fsum_map_ext _ (fun q : prim => colfac m0a ka ma *
+       (ssum (fun alpha => g alpha (fst q) (cnth sa ia) (cnth sb ib) * norm_prim K (s_l sa) (cnth sa ia) alpha) (prims sa) ma
+        * norm_prim K (s_l sb) (cnth sb ib) (fst q) * nth mb (snd q) 0))) by (intros q; ring).
+    rewrite fsum_map_scale. ring.
+Qed.
+
+Lemma nseg_scale_col s m0 k : nseg (scale_col s m0 k) = nseg s.
+Proof.
+  unfold nseg, scale_col, set_coeffs, scale_col_rows. cbn [s_coeffs].
+  destruct (s_coeffs s) as [|r C]; [reflexivity|]. cbn [map hd]. apply mk_length.
+Qed.
+
 End P.
